@@ -564,7 +564,7 @@ class TraitSetObject(TraitSet):
         if object is None:
             return
 
-        if getattr(object, self.name) is not self:
+        if getattr(object, self.name, None) is not self:
             # Workaround having this set inside another container which
             # also uses the name_items trait for notification.
             # Similar to enthought/traits#25
